@@ -101,6 +101,8 @@ def report(prop, tier, seed, outs, wall, level, explanation, extra_assumptions, 
     assumptions: [...], wall: float} contributed by another engine (Engine X / P)."""
     known = evidence.load_known()
     violations, known_hits, inconclusive, skipped = [], [], [], []
+    if callable(extra):
+        extra = extra(outs)
     if extra:
         for f in extra.get('findings', []):
             k = evidence.match_known(prop, f, known)
@@ -178,6 +180,11 @@ def report(prop, tier, seed, outs, wall, level, explanation, extra_assumptions, 
     if post:
         post(cov, outs)
     evidence.write(prop, tier, seed, level, cov, ASSUMPTIONS_G + list(extra_assumptions), wall, len(violations))
+    if extra and 'engine_x' in cov:
+        x = cov['engine_x']
+        print(f'{prop} [{tier}] engine X: conditions={x["conditions"]} confirmed_over_all_paths={x["confirmed_over_all_paths"]} '
+              f'twins_refuted={x["reachability_twins_refuted"]} counterexamples={x["counterexamples_reproduced"]} '
+              f'inconclusive={x["inconclusive"]} cpu={x["cpu_seconds"]}s')
     print(f'{prop} [{tier}] cases={cov["programs"]} obligations={obligations} discharged={discharged} '
           f'queries={queries} unbounded={unb} skipped={len(skipped)} inconclusive={len(inconclusive)} '
           f'violations={len(violations)} known={len(known_hits)} wall={wall:.1f}s solver={solver_s:.1f}s')
@@ -304,22 +311,29 @@ def _c06(prop, tier, seed, jobs, limit):
 
 def _c19(prop, tier, seed, jobs, limit):
     from . import c19
+    laws_cov = {}
+
+    def laws(outs):
+        findings, cov = c19.relation_laws(outs, tier, seed)
+        laws_cov.update(cov)
+        return {'findings': findings}
 
     def post(cov, outs):
         cov['pairs_evaluated_by_real_is_subhint'] = sum(getattr(o, 'pairs', 0) for o in outs)
         cov['pairs_answered_true'] = sum(getattr(o, 'trues', 0) for o in outs)
         sides = [getattr(o, 'side', {}) for o in outs if getattr(o, 'side', None)]
+        cov['relation_laws'] = laws_cov
         cov['concrete_side_conditions'] = {
             'reflexive_all': all(s.get('reflexive') for s in sides),
             'typehint_identity_all': all(s.get('typehint_identity') for s in sides),
             'len_iter_getitem_agree_all': all(s.get('len_iter_agree', True) for s in sides),
             'note': 'concrete observations on the enumerated hints, not solver coverage'}
-    return run_hint_family(prop, tier, seed, jobs, limit, run_case=c19.run_case, cases=c19.cases(tier, seed), post=post,
+    return run_hint_family(prop, tier, seed, jobs, limit, run_case=c19.run_case, cases=c19.cases(tier, seed), post=post, extra=laws,
                            funcs=['beartype.door._cls.doorsuper', 'beartype.door._cls.doormeta',
                                   'beartype.door._cls.pep.doorpep484604', 'beartype.door._cls.pep.doorpep586',
                                   'beartype.door._cls.pep.doorpep593', 'beartype.door._cls.pep.pep484585.doorpep484585tuple',
                                   'beartype.door._cls.pep.pep484585.doorpep484585subscripted', 'beartype.door._func.doorfunc:is_subhint'],
-                           extra_assumptions=['only the soundness clause is decided; reflexivity, transitivity and TypeHint coherence are concrete side conditions',
+                           extra_assumptions=['only the soundness clause is decided by the solver; reflexivity and transitivity are evaluated on the table of answers the real is_subhint gave over the enumerated hints (breaches are reported and replayed, but this is enumeration, not a solver verdict); TypeHint coherence is a concrete side condition',
                                               'pairs are enumerated (the real is_subhint computes the relation); the solver quantifies over all objects of the universe at full depth, container length <= 3'])
 
 
